@@ -12,7 +12,9 @@
 //	dec  cookies(hexlist) | per request "status/seenCookie/msgs/exp" joined by '|' , allocs (csv)
 //	     raw cookie values sent one after another to the same app (pooled context reused).
 //
-// Messages are rendered as key.value.level.old (hex, `_` = empty) joined by ','; `-` = none.
+// Messages are rendered as key.value.level.old (hex, `_` = empty) joined by ','; `-` = none. What a
+// handler saw is "<messages>~<keyed>", keyed = "key:Message(key):OldInput(key)" per queried key
+// (Message as key.value.level, OldInput as key.value), joined by ','.
 package main
 
 import (
@@ -93,7 +95,36 @@ func setup() {
 		if s == "" {
 			s = "-"
 		}
-		return c.SendString("ck=" + gen.Hex(c.Cookies("fiber_flash")) + ";m=" + s)
+		// keyed readers: every key of the script (flash keys, input names), every key the list
+		// readers showed, and one key that is (normally) absent; first occurrence only
+		var keys []string
+		have := map[string]bool{}
+		add := func(k string) {
+			if !have[k] {
+				have[k] = true
+				keys = append(keys, k)
+			}
+		}
+		for _, f := range cur.flashes {
+			add(f.key)
+		}
+		for _, kv := range cur.olds {
+			add(kv[0])
+		}
+		for _, m := range c.Redirect().Messages() {
+			add(m.Key)
+		}
+		for _, m := range c.Redirect().OldInputs() {
+			add(m.Key)
+		}
+		add("zz-absent")
+		var keyed []string
+		for _, k := range keys {
+			fm := c.Redirect().Message(k)
+			oi := c.Redirect().OldInput(k)
+			keyed = append(keyed, hx(k)+":"+hx(fm.Key)+"."+hx(fm.Value)+"."+strconv.Itoa(int(fm.Level))+":"+hx(oi.Key)+"."+hx(oi.Value))
+		}
+		return c.SendString("ck=" + gen.Hex(c.Cookies("fiber_flash")) + ";m=" + s + "~" + strings.Join(keyed, ","))
 	})
 	_ = app.Handler() // startup (route tree) without a listener
 }
